@@ -4,7 +4,8 @@
    every interleaving of the threads at their queue operations and request completions; all statements are for any number of
    ranges and any number >= 1 of workers, any file content and any set of failing requests. *)
 From Coq Require Import ZArith List Bool Sorted Permutation.
-From LasV Require Import Lib.Base Gen.GenFetch Model.Fetch Proofs.FetchProofs Proofs.FetchExecProofs Proofs.FetchPrologueProofs.
+From LasV Require Import Lib.Base Gen.GenFetch Model.Fetch Proofs.FetchProofs Proofs.FetchExecProofs Proofs.FetchPrologueProofs
+  Proofs.FetchTransportProofs.
 Import ListNotations.
 Open Scope Z_scope.
 
@@ -278,13 +279,103 @@ Theorem C16_offset_keyed_block_cache_refuted :
 Proof. exact memo_by_offset_refuted. Qed.
 Print Assumptions C16_offset_keyed_block_cache_refuted.
 
+(* ---- the transport under a range request: the session of requests_retry_session (gen_retry: the Retry configuration extracted
+        from it), attempt by attempt; send_cfg = (what the adapter's send yields, attempts made) ---- *)
+
+(* every request makes at least one and at most 1 + total attempts, whatever the network does *)
+Theorem C16_transport_attempts_bounded : forall net,
+  (1 <= snd (send_cfg gen_retry net) <= S (rt_total gen_retry))%nat.
+Proof. exact transport_attempts. Qed.
+Print Assumptions C16_transport_attempts_bounded.
+
+(* transient faults are masked: m <= total attempts refused / dropped / answered with a status of status_forcelist, then an answer
+   that is not retried: THAT answer is the outcome of the request, after exactly m + 1 attempts *)
+Theorem C16_transport_transient_fault_masked : forall net m,
+  (m <= rt_total gen_retry)%nat ->
+  (forall j, (j < m)%nat -> retryable (rt_statuses gen_retry) (net j) = true) ->
+  retryable (rt_statuses gen_retry) (net m) = false ->
+  send_cfg gen_retry net = (final (net m), S m).
+Proof. exact transport_masked. Qed.
+Print Assumptions C16_transport_transient_fault_masked.
+
+(* 1 + total such attempts: the send raises (ConnectionError / RetryError) after exactly 1 + total attempts *)
+Theorem C16_transport_retries_exhausted : forall net,
+  (forall j, (j <= rt_total gen_retry)%nat -> retryable (rt_statuses gen_retry) (net j) = true) ->
+  send_cfg gen_retry net = (TExhausted, S (rt_total gen_retry)).
+Proof. exact transport_exhausted. Qed.
+Print Assumptions C16_transport_retries_exhausted.
+
+(* a server that answers every attempt alike: the session yields its response unless the status is one that is retried; no
+   answer, a broken body or a retried status: session.get / the read of the body raises *)
+Theorem C16_transport_persistent_fault : forall (a : range -> answer) r,
+  via_retry gen_retry (fun r _ => a r) r =
+  match a r with AResp x => if forced (rt_statuses gen_retry) (r_status x) then None else Some x | _ => None end.
+Proof. exact transport_persistent. Qed.
+Print Assumptions C16_transport_persistent_fault.
+
+(* which range requests fail, seen from the network: one is made (n <> 0) and the adapter gives up, or the body breaks, or the
+   answer that ends the attempts has a status 400..599 *)
+Theorem C16_transport_request_fails_iff : forall net pos n,
+  stream_fails gen_stream_read (via_retry gen_retry net) (pos, n) =
+  negb (n =? 0) && match fst (send_cfg gen_retry (net (pos, n))) with
+                   | TResp x => (400 <=? r_status x) && (r_status x <? 600)
+                   | _ => true
+                   end.
+Proof. exact transport_request_fails_iff. Qed.
+Print Assumptions C16_transport_request_fails_iff.
+
+(* the two strategies over that transport: for every network behaviour (per range, per attempt), every schedule, every worker
+   count >= 1 the query yields the local read, or raises for a range whose request failed in the sense above *)
+Theorem C16_http_query_queue_over_transport : forall file net ranges n ps, (1 <= n)%nat ->
+  StronglySorted (fun a b : range => fst a < fst b) ranges ->
+  preach gen_worker_prog file (stream_fails gen_stream_read (via_retry gen_retry net)) (pinit gen_main_prog ranges (gen_fetch_workers n)) ps ->
+  main_done (p_s ps) = true ->
+  if existsb (stream_fails gen_stream_read (via_retry gen_retry net)) ranges
+  then exists r, s_status (p_s ps) = MRaised r /\ In r ranges /\ stream_fails gen_stream_read (via_retry gen_retry net) r = true
+  else s_status (p_s ps) = MReturned /\ s_buf (p_s ps) = local_read file ranges.
+Proof. exact queue_over_transport. Qed.
+Print Assumptions C16_http_query_queue_over_transport.
+
+Theorem C16_http_query_executor_over_transport : forall file net ranges n s o, (1 <= n)%nat ->
+  xreach gen_exec_stream_per_job gen_exec_collect gen_exec_job file (stream_fails gen_stream_read (via_retry gen_retry net))
+         (xinit ranges (gen_fetch_workers n)) s ->
+  x_main s = XShutdown o \/ x_main s = XDone o ->
+  o = match first_failing (stream_fails gen_stream_read (via_retry gen_retry net)) ranges with
+      | None => OReturned (local_read file ranges) | Some r => ORaised r end.
+Proof. intros file net. exact (exec_http file (via_retry gen_retry net)). Qed.
+Print Assumptions C16_http_query_executor_over_transport.
+
+(* ---- what the transport keeps between requests, process-wide (gen_transport_kept, extracted from requests_retry_session,
+        HttpRangeStream and the module level): a HISTORY of sends - of any number of queries, readers, streams, each send
+        returning or raising - seen as the list of their `raises` flags in the order they end ---- *)
+
+(* nothing is kept: after any history no send blocks and the state is what it was - a later query is a query on a fresh process *)
+Theorem C16_history_transport_keeps_nothing : forall sends free,
+  gen_transport_kept = TkNothing /\ slot_history gen_transport_kept free sends = Some free.
+Proof. intros sends free. split; [exact transport_kept_nothing | exact (history_nothing_kept sends free)]. Qed.
+Print Assumptions C16_history_transport_keeps_nothing.
+
+(* contrast: a bound on the requests in flight is harmless when the slot comes back however the send ends ... *)
+Theorem C16_history_slot_released_in_finally_ok : forall c sends, slot_history (TkSlots (S c) true) (S c) sends = Some (S c).
+Proof. exact history_released_in_finally. Qed.
+Print Assumptions C16_history_slot_released_in_finally_ok.
+
+(* ... regression witness: when it comes back only if send RETURNS, fewer failed sends than slots show nothing, and once `capacity`
+   sends have raised (spread over any queries, any successful sends in between) the next send - of a query on a healthy server -
+   blocks for ever *)
+Theorem C16_history_leaked_slots_refuted : forall c sends later,
+  (length (filter (fun b => b) sends) < c -> slot_history (TkSlots c false) c sends <> None)%nat /\
+  (length (filter (fun b => b) sends) = c -> slot_history (TkSlots c false) c (sends ++ false :: later) = None).
+Proof. intros c sends later. split; [exact (history_leak_invisible c sends) | exact (history_leak_blocks c sends later)]. Qed.
+Print Assumptions C16_history_leaked_slots_refuted.
+
 (* the shape of the source the theorems above are about (regenerated from laspy/copc.py on every run) *)
 Theorem C16_source_shape :
   gen_worker_prog = [ITake false; IFetch; IPutResult; IPutExc; ITaskDone] /\
   gen_main_prog = [MPutAll; MStart true; MJoin; MDrain; MSort; MAssemble] /\
   gen_stream_read = [SZeroEmpty; SRequest; SRaiseForStatus; SAdvance; SReturnContent] /\
-  (forall n, gen_fetch_workers n = n) /\ gen_fetch_site = FsDirect.
-Proof. exact (conj (proj1 source_shape) (conj (proj2 source_shape) (conj sr_shape (conj fetch_workers_id fetch_site_direct)))). Qed.
+  (forall n, gen_fetch_workers n = n) /\ gen_fetch_site = FsDirect /\ gen_transport_kept = TkNothing.
+Proof. exact (conj (proj1 source_shape) (conj (proj2 source_shape) (conj sr_shape (conj fetch_workers_id (conj fetch_site_direct transport_kept_nothing))))). Qed.
 Print Assumptions C16_source_shape.
 
 (* 3 ranges queued out of offset order, 2 workers, the middle request fails / nothing fails; the higher offsets are answered first;
@@ -299,7 +390,14 @@ Example C16_nonvacuous :
   let server := fun r : range => if fst r =? 0 then Some (mkResp 416 []) else Some (mkResp 206 (slice file r)) in
   let ps := prun gen_worker_prog file (stream_fails gen_stream_read server) (pinit gen_main_prog ranges 2)
                  ([0; 0; 0; 0; 0; 1; 0; 0; 2; 1; 1] ++ skipn 4 sched)%nat in
-  (s_status ok, s_buf ok, all_exited ok) = (MReturned, [0; 1; 2; 3; 6; 7], true)
+  let net := fun (r : range) (k : nat) =>
+    if fst r =? 0 then (if Nat.ltb k 2 then ADropped else AResp (mkResp 206 (slice file r)))       (* dropped twice, then served *)
+    else if fst r =? 3 then AResp (mkResp 502 [])                                                  (* 502 for ever *)
+    else AResp (mkResp 206 (slice file r)) in
+  (send_cfg gen_retry (net (0, 3)), send_cfg gen_retry (net (3, 1)), map (stream_fails gen_stream_read (via_retry gen_retry net)) ranges)
+    = ((TResp (mkResp 206 [0; 1; 2]), 3%nat), (TExhausted, 4%nat), [false; false; true])
+  /\ slot_history (TkSlots 2 false) 2 [true; false; true; false] = None
+  /\ (s_status ok, s_buf ok, all_exited ok) = (MReturned, [0; 1; 2; 3; 6; 7], true)
   /\ (s_status ko, s_buf ko, all_exited ko) = (MRaised (0, 3), [], true)
   /\ (s_status (p_s ps), s_buf (p_s ps), all_exited (p_s ps), p_tostart ps, p_toput ps) = (MRaised (0, 3), [], true, O, []).
 Proof. vm_compute. repeat split; reflexivity. Qed.
